@@ -29,6 +29,7 @@ class G2:
         self.occ = []
         self.n = 0
         self.uncond = True
+        self.replaced = qgen.choose_replacement(self.md, rng, backend)
 
     def var(self, p):
         self.n += 1
@@ -232,7 +233,9 @@ class G2:
             if r.random() < qgen.P_ODD_BANK or (any(":" in o["bank"] for o in self.occ) and r.random() < 0.8):
                 bank = qgen.odd_bank(r, name, bank, self.occ)
             call = name
-            if r.random() < qgen.P_DECL:
+            if name in self.replaced:
+                c = dict(c, ctype=self.replaced[name][0], etype=self.replaced[name][1])
+            elif r.random() < qgen.P_DECL:
                 call = qgen.declare_collection(self.md, r, self.b, name)
             self.occ.append({"coll": call, "bank": bank, "type": c["ctype"], "uncond": self.uncond and not env["objs"] and not env["nums"]})
             return f'e.{call}("{bank}")', c["etype"]
